@@ -66,3 +66,5 @@ leaf cli_child_of_ss ss_client $VALID_FROM $VALID_TO client.test operator
 leaf srv_child_of_ss ss_server $VALID_FROM $VALID_TO test.com ""
 rm -f *.srl
 ls
+# same subject / same key as the pinned self-signed certificate, but not the same bytes
+# (added later with the equivalent commands: same DN + new key, and same DN + same key + another validity)
